@@ -82,6 +82,7 @@ package ipfscluster
 
 //@ interface Consensus.State(ctx)
 //@   ensures err == nil ==> res != nil
+//@   ensures err != state.ErrNotFound
 //@   modifies nothing
 
 //@ interface Consensus.LogPin(ctx, pin)
@@ -94,9 +95,10 @@ package ipfscluster
 
 //@ func (c *Cluster) PinGet
 //@   property C04 C03
-//@   ensures err == nil ==> res != nil && haskey(pinset, h) && *res == pinset[h] && res.Cid == h
+//@   ensures err == nil ==> res != nil && fresh(res) && haskey(pinset, h) && *res == pinset[h] && res.Cid == h
 //@   ensures err != nil ==> res == nil
 //@   ensures !haskey(pinset, h) ==> err != nil
+//@   ensures err == state.ErrNotFound ==> !haskey(pinset, h)
 //@   modifies nothing
 
 //@ func (c *Cluster) setupReplicationFactor
@@ -138,3 +140,64 @@ package ipfscluster
 //@   ensures nLogPin == old(nLogPin) && nLogUnpin == old(nLogUnpin)
 //@   loop 1 (range metrics)
 //@     invariant len(peers) == len(metrics) && (forall k int :: 0 <= k && k < idx1 ==> peers[k] == metrics[k].Peer)
+
+// ---- C04: pin / update / unpin change the log of consensus operations exactly as requested ----
+
+//@ spec func reqMin(c *Cluster, o api.PinOptions) int = ite(o.ReplicationFactorMin == 0, c.config.ReplicationFactorMin, o.ReplicationFactorMin)
+//@ spec func reqMax(c *Cluster, o api.PinOptions) int = ite(o.ReplicationFactorMax == 0, c.config.ReplicationFactorMax, o.ReplicationFactorMax)
+// the requested options, cluster defaults substituted for unset factors
+//@ spec func optsAsRequested(c *Cluster, got api.PinOptions, req api.PinOptions) bool = got.Name == req.Name && got.Mode == req.Mode && got.ReplicationFactorMin == reqMin(c, req) && got.ReplicationFactorMax == reqMax(c, req) && got.ShardSize == req.ShardSize && len(got.UserAllocations) == len(req.UserAllocations) && got.ExpireAt == req.ExpireAt && (forall k string :: k != "" ==> got.Metadata[k] == req.Metadata[k]) && len(got.Origins) == len(req.Origins)
+//@ spec func isRedirect(o api.PinOptions, ci cid.Cid) bool = o.PinUpdate != cid.Undef && o.PinUpdate != ci
+
+//@ func (c *Cluster) PinUpdate
+//@   property C04
+//@   ensures [never-unpins] nLogUnpin == old(nLogUnpin)
+//@   ensures [missing-source-refused] !haskey(pinset, from) ==> err != nil && nLogPin == old(nLogPin)
+//@   ensures [non-data-refused] haskey(pinset, from) && pinset[from].Type != api.DataType ==> err != nil && nLogPin == old(nLogPin)
+//@   ensures [one-entry-or-none] nLogPin == old(nLogPin) || (nLogPin == old(nLogPin) + 1 && haskey(pinset, from) && pinset[from].Type == api.DataType)
+//@   ensures [success-logged] err == nil ==> nLogPin == old(nLogPin) + 1
+//@   ensures [copies-source] nLogPin == old(nLogPin) + 1 ==> lastLogged.Cid == to && lastLogged.PinUpdate == from && lastLogged.Allocations == pinset[from].Allocations && lastLogged.ReplicationFactorMin == pinset[from].ReplicationFactorMin && lastLogged.ReplicationFactorMax == pinset[from].ReplicationFactorMax && lastLogged.Mode == pinset[from].Mode && lastLogged.MaxDepth == pinset[from].MaxDepth && lastLogged.Type == pinset[from].Type && lastLogged.Metadata == pinset[from].Metadata && lastLogged.ShardSize == pinset[from].ShardSize
+//@   ensures [name-override] nLogPin == old(nLogPin) + 1 ==> lastLogged.Name == ite(opts.Name != "", opts.Name, pinset[from].Name)
+//@   ensures [returns-logged] nLogPin == old(nLogPin) + 1 ==> res != nil && *res == lastLogged
+//@   modifies nLogPin, lastLogged, heap(api.Pin)
+
+// invariant of the shared pinset, established by every logged pin ([everywhere-empty] below): "-1 means everywhere: empty list"
+//@ spec func pinsetInv() bool = forall x cid.Cid :: haskey(pinset, x) && pinset[x].ReplicationFactorMin == -1 ==> len(pinset[x].Allocations) == 0
+
+//@ func (c *Cluster) pin
+//@   property C04
+//@   requires pin != nil
+//@   requires pinsetInv()
+//@   ensures [follower] c.config.FollowerMode ==> err == errFollowerMode && nLogPin == old(nLogPin)
+//@   ensures [never-unpins] nLogUnpin == old(nLogUnpin)
+//@   ensures [at-most-one] nLogPin == old(nLogPin) || nLogPin == old(nLogPin) + 1
+//@   ensures [refused-unchanged] !res2 ==> nLogPin == old(nLogPin)
+//@   ensures [bad-factors-refused] !c.config.FollowerMode && old(pin.Cid) != cid.Undef && !isRedirect(old(pin.PinOptions), old(pin.Cid)) && !validFactors(reqMin(c, old(pin.PinOptions)), reqMax(c, old(pin.PinOptions))) ==> err != nil && nLogPin == old(nLogPin)
+//@   ensures [past-expiry-refused] !c.config.FollowerMode && old(pin.Cid) != cid.Undef && !isRedirect(old(pin.PinOptions), old(pin.Cid)) && old(pin.ExpireAt) != 0 && old(pin.ExpireAt) < old(now) ==> err != nil && nLogPin == old(nLogPin)
+//@   ensures [type-change-refused] !c.config.FollowerMode && old(pin.Cid) != cid.Undef && !isRedirect(old(pin.PinOptions), old(pin.Cid)) && haskey(pinset, old(pin.Cid)) && pinset[old(pin.Cid)].Type != old(pin.Type) ==> err != nil && nLogPin == old(nLogPin)
+//@   ensures [downgrade-refused] !c.config.FollowerMode && old(pin.Cid) != cid.Undef && !isRedirect(old(pin.PinOptions), old(pin.Cid)) && haskey(pinset, old(pin.Cid)) && pinset[old(pin.Cid)].Mode == api.PinModeRecursive && old(pin.Mode) != api.PinModeRecursive ==> err != nil && nLogPin == old(nLogPin)
+//@   ensures [success-one-entry] err == nil && res2 ==> nLogPin == old(nLogPin) + 1
+//@   ensures [entry-cid] nLogPin == old(nLogPin) + 1 && !isRedirect(old(pin.PinOptions), old(pin.Cid)) ==> lastLogged.Cid == old(pin.Cid)
+//@   ensures [entry-options] nLogPin == old(nLogPin) + 1 && !isRedirect(old(pin.PinOptions), old(pin.Cid)) ==> optsAsRequested(c, lastLogged.PinOptions, old(pin.PinOptions))
+//@   ensures [entry-factors-valid] nLogPin == old(nLogPin) + 1 && !isRedirect(old(pin.PinOptions), old(pin.Cid)) ==> validFactors(lastLogged.ReplicationFactorMin, lastLogged.ReplicationFactorMax)
+//@   ensures [everywhere-empty] nLogPin == old(nLogPin) + 1 && !isRedirect(old(pin.PinOptions), old(pin.Cid)) && lastLogged.ReplicationFactorMin == -1 ==> len(lastLogged.Allocations) == 0
+//@   ensures [returns-logged] nLogPin == old(nLogPin) + 1 ==> res != nil && *res == lastLogged
+//@   modifies nLogPin, lastLogged, heap(api.Pin)
+
+//@ func (c *Cluster) unpinClusterDag
+//@   property C04
+//@   ensures nLogPin == old(nLogPin)
+//@   ensures nLogUnpin >= old(nLogUnpin)
+//@   loop 1 (range cids)
+//@     invariant nLogPin == old(nLogPin) && nLogUnpin == old(nLogUnpin) + idx1
+//@   modifies nLogUnpin, lastUnlogged
+
+//@ func (c *Cluster) Unpin
+//@   property C04
+//@   ensures [never-pins] nLogPin == old(nLogPin)
+//@   ensures [follower] c.config.FollowerMode ==> err == errFollowerMode && nLogUnpin == old(nLogUnpin)
+//@   ensures [absent-refused] !haskey(pinset, h) ==> err != nil && nLogUnpin == old(nLogUnpin)
+//@   ensures [shard-dag-refused] haskey(pinset, h) && (pinset[h].Type == api.ShardType || pinset[h].Type == api.ClusterDAGType) ==> err != nil && nLogUnpin == old(nLogUnpin)
+//@   ensures [data-exactly-one] haskey(pinset, h) && pinset[h].Type == api.DataType && !c.config.FollowerMode ==> nLogUnpin == old(nLogUnpin) || (nLogUnpin == old(nLogUnpin) + 1 && lastUnlogged == pinset[h])
+//@   ensures [success-removes-it] err == nil ==> nLogUnpin > old(nLogUnpin) && lastUnlogged.Cid == h && lastUnlogged == pinset[h]
+//@   modifies nLogUnpin, lastUnlogged
